@@ -67,6 +67,7 @@ Event(ln) ==
       [] ln.ev = "Done"      -> Known(ln.a.dn) /\ SvcDone(ln.a.dn)
       [] ln.ev = "SawCancel" -> Known(ln.a.dn) /\ SvcSawCancel(ln.a.dn)
       [] ln.ev = "Exit"      -> Known(ln.a.dn) /\ SvcExit(ln.a.dn, ln.a.kind)
+      [] ln.ev = "BadSignal" -> Known(ln.a.dn) /\ ln.a.panicked /\ SvcBadSignal(ln.a.dn, ln.a.sig)   \* the refused signal must panic
       [] ln.ev = "Kill"      -> Kill
       [] ln.ev = "ObsKilled" -> ~procUp /\ UNCHANGED vars
       [] ln.ev \in {"Settled", "WaitSettled", "Obs", "AllUp", "End"} -> UNCHANGED vars     \* Obs: the driver sampled the tree between steps
